@@ -134,6 +134,7 @@ static std::pair<std::string, std::string> run_scn(const Scn &s) {
     vdrv::Result &r = ss.finish(); g_tags = nullptr;
     for (auto &v : r.violations) if (v.rfind("C16:", 0) == 0) fail(v.substr(4), "monitor: " + v);
     if (A.mode == "c09") for (auto &v : r.violations) if (v.rfind("C09:", 0) == 0) fail("monitor:" + v.substr(4), "API-contract monitor: " + v);
+    if (A.mode == "c05") { err.clear(); detail.clear(); for (auto &v : r.violations) if (v.rfind("C05:", 0) == 0) { err = v.substr(4); detail = "lifecycle monitor: " + v; break; } if (err.empty()) return {"", ""}; return {err, detail}; }
     if (livelock) fail("handover_livelock", "DATA_OTHER ping-pong without progress");
     if (err.empty()) {
         if (s.expect_tunnel) {
@@ -222,7 +223,7 @@ static void campaign() {
             if (same_chunk || near) g_stats.nt(vc::fnv1a(text));
             g_stats.sample_sparse(text, g_stats.evaluations);
         }
-        if (!r.first.empty()) { std::string sig = (A.mode == "c09" ? std::string("C09:resume_point_or_progress:") : std::string("C16:")) + r.first; if (A.is_known(sig)) { if (!rcx::shrinking()) g_stats.attributed[sig]++; return {}; } return rcx::Fail{sig, text, r.second}; }
+        if (!r.first.empty()) { std::string sig = (A.mode == "c09" ? std::string("C09:resume_point_or_progress:") : A.mode == "c05" ? std::string("C05:") : std::string("C16:")) + r.first; if (A.is_known(sig)) { if (!rcx::shrinking()) g_stats.attributed[sig]++; return {}; } return rcx::Fail{sig, text, r.second}; }
         return {};
     });
 }
@@ -239,7 +240,7 @@ static int replay(const std::string &path) {
     }
     auto r = run_scn(s);
     if (r.first.empty()) { printf("REPLAY-OK\n"); return 0; }
-    printf("REPLAY-FAIL sig=%s%s\n%s\n", A.mode == "c09" ? "C09:resume_point_or_progress:" : "C16:", r.first.c_str(), r.second.c_str()); return 1;
+    printf("REPLAY-FAIL sig=%s%s\n%s\n", A.mode == "c09" ? "C09:resume_point_or_progress:" : A.mode == "c05" ? "C05:" : "C16:", r.first.c_str(), r.second.c_str()); return 1;
 }
 
 int main(int argc, char **argv) {
